@@ -361,6 +361,6 @@ func runC07(ctx *core.Ctx) {
 
 	c07Machine.BFS(ctx, tierN(ctx, 2, 3), 3_000_000)
 	if ctx.DistinctCount("equal-outcomes") != 2 {
-		core.InternalError("C07: vacuous Equal coverage")
+		ctx.Vacuous("C07: vacuous Equal coverage")
 	}
 }
